@@ -346,6 +346,18 @@ impl Prop for C07 {
                 "{} element comparisons after the deadline expired (at probe {}), more than {}*(N+M)+{} = {}; result {}",
                 after, k, per, c0, bound, text
             );
+            if k == 0 {
+                // the very first probe said 'expired': this path is also the run of a deadline that had
+                // expired before the diff started, so everything the diff did came after the expiry
+                let (per0, c00) = (konst("c07_expired_before_start_per_item"), konst("c07_expired_before_start_const"));
+                let bound0 = per0 * (s.n + s.m) as u64 + c00;
+                engine::stat_max("total_comparisons_when_expired_before_the_start_x100_per_item", cmps_total * 100 / ((s.n + s.m) as u64).max(1));
+                claim!(
+                    cmps_total <= bound0,
+                    "{} element comparisons in total although the deadline had expired before the first probe, more than {}*(N+M)+{} = {}; result {}",
+                    cmps_total, per0, c00, bound0, text
+                );
+            }
         } else {
             engine::witness("paths_where_the_deadline_never_fired");
             // a deadline that never expires gives exactly the result of no deadline
@@ -404,7 +416,7 @@ impl Prop for C07 {
                 "similar::{capture_diff_deadline, capture_diff_slices_deadline} (+ Compact, Replace, Capture)",
                 "similar::TextDiffConfig::{deadline, timeout, diff_slices, diff}, Deadline::into_instant, deadline_support::duration_to_deadline",
             ],
-            bounds: format!("3 algorithms x n,m in 0..={} x 3 layouts x 7 entry points (incl. TextDiffConfig::deadline and ::timeout over one-character SymTxt tokens), plus the mid-sized structured inputs of common.rs::long_layouts with at most 140 items in total (about 45, some as sub-ranges at non-zero offsets, offset lookups or interned-pool lookups) through algorithms::diff_deadline and capture_diff_deadline, every probe of each run an expiry point; plus a never-expiring clock on inputs with long stretches without any match (9+1+9, 20+3+20, 40+2+40 items per side) compared with no deadline; plus TextDiffConfig::deadline / ::timeout above the 100-token threshold (100..103 pairwise different tokens per side, clock already expired); the clock is symbolic: one z3 Bool per deadline probe with a latch, so 'expired before the start', 'at probe k' for every reachable k, and 'never' are all explored; work bound after expiry: raw {}*(N+M)+{}, captured {}*(N+M)+{} comparisons (constants.json)", match tier { Tier::Quick => 4, Tier::Thorough => 5 }, konst("c07_raw_after_expiry_per_item"), konst("c07_raw_after_expiry_const"), konst("c07_captured_after_expiry_per_item"), konst("c07_captured_after_expiry_const")),
+            bounds: format!("3 algorithms x n,m in 0..={} x 3 layouts x 7 entry points (incl. TextDiffConfig::deadline and ::timeout over one-character SymTxt tokens), plus the mid-sized structured inputs of common.rs::long_layouts with at most 140 items in total (about 45, some as sub-ranges at non-zero offsets, offset lookups or interned-pool lookups) through algorithms::diff_deadline and capture_diff_deadline, every probe of each run an expiry point; plus a never-expiring clock on inputs with long stretches without any match (9+1+9, 20+3+20, 40+2+40 items per side) compared with no deadline; plus TextDiffConfig::deadline / ::timeout above the 100-token threshold (100..103 pairwise different tokens per side, clock already expired); the clock is symbolic: one z3 Bool per deadline probe with a latch, so 'expired before the start', 'at probe k' for every reachable k, and 'never' are all explored; work bound after expiry: raw {}*(N+M)+{}, captured {}*(N+M)+{} comparisons (constants.json); on paths whose first probe already reports expiry (= a deadline expired before the start) the total number of comparisons of the run is bounded by c07_expired_before_start_per_item*(N+M)+c07_expired_before_start_const", match tier { Tier::Quick => 4, Tier::Thorough => 5 }, konst("c07_raw_after_expiry_per_item"), konst("c07_raw_after_expiry_const"), konst("c07_captured_after_expiry_per_item"), konst("c07_captured_after_expiry_const")),
             outside: "wall-clock behaviour of Instant::now itself; lengths beyond the bound (so the 'small constant multiple' is only bounded on small inputs)".into(),
             assumptions: vec![
                 "H1 (cfg similar_verif): deadline_exceeded consults the installed oracle instead of Instant::now() when a deadline is present".into(),
